@@ -46,6 +46,7 @@ class Oracle(simcheck.BaseOracle):
         self.n_checked = 0
         self.n_complete = 0
         self.multi = False
+        self.last_placed = {}    # (strategy idx, runner lookup) -> simulated time of the last accepted, executed placement (own record)
 
     def before_action(self, run, sidx, market, a, order, state):
         self.pre = None
@@ -55,11 +56,15 @@ class Oracle(simcheck.BaseOracle):
             self.pre = (order, None) if ctx is None else (
                 order, {"live": order.trade.id in ctx.live_trades, "known": order.trade.id in ctx.trades,
                         "reset": own_elapsed(ctx.datetime_last_reset), "placed": own_elapsed(ctx.datetime_last_placed),
+                        # the oracle's own record of the last placement on this runner (any trade of the strategy, live or new): the
+                        # context's timestamp is what the code under test maintains, so it is not what the accept clause is judged by
+                        "placed_own": own_elapsed(self.last_placed.get((sidx, order.lookup))),
                         "n_live": ctx.live_trade_count, "n": ctx.trade_count})
 
     def on_action(self, run, sidx, market, a, result, order):
         if a[0] == "place" and a[3] and order is not None:
             self.forced.add((sidx, market.market_id, order.selection_id))
+        placed_now = a[0] == "place" and result == "True" and order is not None
         if a[0] == "place" and result == "True" and order is not None and not a[3]:
             # accepted, unforced placement: the limits held counting this trade
             st = order.trade.strategy
@@ -82,7 +87,14 @@ class Oracle(simcheck.BaseOracle):
                     if pre["placed"] is not None and pre["placed"] < order.trade.place_reset_seconds:
                         self.add("cool-down-ignored", "strategy %d runner %s: order accepted %.3fs after the last placement, place_reset_seconds %s" % (
                             sidx, order.lookup, pre["placed"], order.trade.place_reset_seconds))
+                    elif pre.get("placed_own") is not None and pre["placed_own"] < order.trade.place_reset_seconds:
+                        self.add("cool-down-ignored", "strategy %d runner %s: order accepted %.3fs after the last placement on the runner (own record; the "
+                                 "context's datetime_last_placed is %s s old), place_reset_seconds %s" % (
+                                     sidx, order.lookup, pre["placed_own"], pre["placed"], order.trade.place_reset_seconds))
 
+        if placed_now:
+            import datetime
+            self.last_placed[(sidx, order.lookup)] = datetime.datetime.utcnow()
         if a[0] == "place" and result.startswith("False") and order is not None and getattr(self, "pre", None) and self.pre[0] is order \
                 and self.pre[1] is not None:
             # refused by a cool-down: then the clock really is inside that window (otherwise the strategy is locked out of a runner
